@@ -343,6 +343,8 @@ package app
 //@   assert_at performSwitchover#1 C06.approved_started [C06]: resultof("approveSwitchover", 1) == nil && resultof("StartSwitchover", 1) == nil && resultof("GetCurrentSwitchover", 1) == nil && callarg2 == switchover && callarg1 == activeNodes && callarg3 == master
 //@   assert_after FinishSwitchover#1 C06.timeout [C06]: result == nil ==> !d_switchPresent && e_SetLastRejected == old(e_SetLastRejected) + 1 && e_SetLastSwitch == old(e_SetLastSwitch)
 //@   assert_at approveSwitchover#1 C06.not_timed_out [C06]: switchover.InitiatedAt == 0 || old(time_now) - switchover.InitiatedAt <= app.config.SwitchoverTimeout
+//@   assert_at FailSwitchover#1 C06.fail_only_if_present [C06]: reached("GetCurrentSwitchover", 2) && !errIs(resultof("GetCurrentSwitchover", 2), dcs.ErrNotFound)
+//@   assert_at FinishSwitchover#3 C06.finish_only_if_present [C06]: reached("GetCurrentSwitchover", 2) && !errIs(resultof("GetCurrentSwitchover", 2), dcs.ErrNotFound) && callarg1 == nil
 //@   assert_at FailSwitchover#1 C06.fail_counted [C06]: resultof("performSwitchover", 1) != nil && callarg0 == switchover
 //@   assert_at StartSwitchover#1 C06.limit_rejects [C06]: !overLimit(app, switchover) && resultof("approveSwitchover", 1) == nil
 //@   assert_at approveSwitchover#1 C09.light_failover [C09,C06]: !(lightMaintenance && switchover.MasterTransition == FailoverTransition)
